@@ -400,6 +400,10 @@ def _generate_struct_info(cs: cstruct, fields: list[Field], align: bool = False)
         elif issubclass(read_type, (Char, Wchar, Int)):
             yield field, count * read_type.size, "x"
 
+        elif not issubclass(read_type, Void):
+            # E.g. a fixed array of a custom type, leave the structure to the interpreted reader
+            raise TypeError(f"Unsupported type for compiler: {read_type}")
+
         size = count * read_type.size
         imaginary_offset += size
         if current_offset is not None:
